@@ -570,6 +570,12 @@ func (s *MemoryStore) CreateDeviceAuthSession(_ context.Context, deviceCodeSigna
 	s.deviceAuthsMutex.Lock()
 	defer s.deviceAuthsMutex.Unlock()
 
+	// user codes are short: tell the caller about a collision (it draws another one) instead of handing the
+	// user code of a pending flow over to a new one
+	if _, exists := s.DeviceAuths[userCodeSignature]; exists {
+		return fosite.ErrExistingUserCodeSignature
+	}
+
 	s.DeviceAuths[deviceCodeSignature] = req
 	s.DeviceAuths[userCodeSignature] = req
 	s.DeviceCodesRequestIDs[req.GetID()] = DeviceAuthPair{d: deviceCodeSignature, u: userCodeSignature}
